@@ -61,10 +61,23 @@ def tag_tables(P, R):
 
 
 def validated_return(P, R, r, sepch, idv, serv):
-    rets = [s for s in r.sites() if s.ev['k'] == 'ret' and s.ev.get('val') is not None and const_of(s.ev['val']) != 0]
-    R.ob('C04.GRD.1', len(rets) >= 1, rets[0] if rets else r, 'the lookup has a non-null return', key='has-return', nontrivial=False)
-    for s in rets:
-        v = s.ev['val']
+    rets = [(s, s.ev['val']) for s in r.sites() if s.ev['k'] == 'ret' and s.ev.get('val') is not None and const_of(s.ev['val']) != 0]
+    # single-exit form: `found = NULL; ... if (all tests) found = req; return found;` - the non-null "return" is the place
+    # where the result variable is given a non-null value
+    expanded = []
+    for s, v in rets:
+        if is_var(v) and v.get('sc') == 'local':
+            ds = r.local_defs(v['name'])
+            vals = [(d, d.ev.get('rhs') if d.ev['k'] == 'store' else d.ev.get('init')) for d in ds]
+            if len(vals) >= 2 and any(x is not None and const_of(x) == 0 for _, x in vals) and all(x is None or const_of(x) == 0 or is_var(x) for _, x in vals):
+                for d, x in vals:
+                    if x is not None and const_of(x) != 0:
+                        expanded.append((d, x))
+                continue
+        expanded.append((s, v))
+    rets = expanded
+    R.ob('C04.GRD.1', len(rets) >= 1, rets[0][0] if rets else r, 'the lookup has a non-null return', key='has-return', nontrivial=False)
+    for s, v in rets:
         gs = r.guards(s.bid)
 
         def has(pred):
@@ -203,12 +216,16 @@ def effects_guarded(P, R, cl):
             r = rules.edge_rel(e)
             if not r:
                 return st
-            a, nm, lim = st
+            a, nm, lim, eqs = st
             if awaited(r):
                 a = True
             if named(r):
                 nm = True
             l, op, rr = r
+            # a variable known to EQUAL an expression (the "not found" value handed back by a folded search helper):
+            # a later comparison with that expression that excludes equality cannot be taken
+            if is_var(l) and (l['name'], sx(rr)) in eqs and op in ('<', '>', '!='):
+                return None
             if is_var(l, idxv) and not const_of(rr) is not None:
                 k = {'>=': 'ge', '>': 'gt', '<': 'lt', '<=': 'le'}.get(op)
                 if k:
@@ -216,17 +233,30 @@ def effects_guarded(P, R, cl):
                     if lim and lim[1] == sx(rr) and frozenset((lim[0], k)) in (frozenset(('ge', 'lt')), frozenset(('gt', 'le')), frozenset(('gt', 'lt'))):
                         return None
                     lim = (k, sx(rr))
-            return (a, nm, lim)
+            return (a, nm, lim, eqs)
 
         def on_event(st, s):
-            a, nm, lim = st
+            a, nm, lim, eqs = st
             ev = s.ev
+            if ev['k'] == 'store' and is_var(ev.get('lhs')) and ev.get('op') == '=':
+                v = ev['lhs']['name']
+                rhs = ev.get('rhs') or {}
+                eq2 = {(x, y) for (x, y) in eqs if x != v}
+                if rhs.get('k') == 'mem' and rhs.get('field') == 'used':
+                    eq2.add((v, sx(rhs)))
+                elif is_var(rhs):
+                    eq2 |= {(v, y) for (x, y) in eqs if x == rhs['name']}
+                eqs = frozenset(eq2)
+                st = (a, nm, lim, eqs)
             if ev['k'] == 'store' and is_var(ev.get('lhs'), idxv):
-                return (False, False, None)
+                return (False, False, None, eqs)
             if ev['k'] == 'store' and is_var(ev.get('lhs')) and ev['lhs']['name'] in ptrs and not slotvar(s) and ev['lhs'].get('t', '').replace('const ', '').startswith('struct iauth_xquery_service'):
-                return (a, False, lim)
+                # a copy of another service pointer keeps what is known about it (the folded helper hands its match back)
+                if is_var(ev.get('rhs')) and ev['rhs']['name'] in ptrs:
+                    return st
+                return (a, False, lim, eqs)
             return st
-        before, _, sin, bout = f.forward((False, False, None), on_event, on_edge)
+        before, _, sin, bout = f.forward((False, False, None, frozenset()), on_event, on_edge)
         for s in f.sites():
             ev = s.ev
             eff = None
